@@ -192,6 +192,7 @@ type verifC38Archive struct {
 	slots        []verifC38Slot
 	richSlots    []int
 	enc          map[string]verifC38Encoded
+	variants     map[string]*verifC38VariantCache // per stored chunk body, see zz_verif_c38_chunk_test.go
 	desc         string
 }
 
@@ -582,6 +583,9 @@ type verifC38Mut struct {
 	target string // object class touched: top|complete|slot|chunk|marker
 	desc   string
 	nt     bool
+	// identical: the changed chunk object still expands to the same logical
+	// bytes under a plain zstd decoder (only the stored digest can see it)
+	identical bool
 }
 
 func verifC38JSON(v any) []byte {
@@ -675,8 +679,26 @@ func verifC38Mutate(t *rapid.T, a *verifC38Archive, st *verifC38Store) (mut veri
 	kind := rapid.SampledFrom([]string{
 		"slot-edit", "top-edit", "bytes", "slot-edit", "delete", "replace-sibling", "slot-edit", "size-lie", "top-edit", "corrupt-marker",
 		"bytes", "append-newline", "slot-edit", "recompress", "top-edit", "complete-edit", "slot-edit", "bytes",
+		"chunk-stored", "chunk-stored", "chunk-stored", "chunk-stored", "chunk-stored",
 	}).Draw(t, "mutKind")
 	switch kind {
+	case "chunk-stored":
+		// a same-size change of one stored chunk object, aimed at the bytes a
+		// decompressor may not care about (see zz_verif_c38_chunk_test.go)
+		hs := a.pickSlot(t)
+		c := a.slots[hs].chunks[rapid.IntRange(0, len(a.slots[hs].chunks)-1).Draw(t, "sc")]
+		if a.variants == nil {
+			a.variants = map[string]*verifC38VariantCache{}
+		}
+		cache := a.variants[string(c.stored)]
+		if cache == nil {
+			cache = &verifC38VariantCache{}
+			a.variants[string(c.stored)] = cache
+		}
+		v := verifC38StoredVariant(t, c.stored, c.logical, cache)
+		st.objects[c.fullKey] = v.body
+		return verifC38Mut{class: "chunk stored: " + v.class, target: "chunk", identical: v.identical,
+			desc: fmt.Sprintf("%s (%dB logical) %s", c.fullKey, len(c.logical), v.desc)}, true
 	case "bytes":
 		key, target := a.pickObject(t)
 		nb, m := kit.Mutate(t, st.objects[key])
@@ -1120,6 +1142,7 @@ func TestVerifC38Archive(t *testing.T) {
 			sub.SetNonTrivial(mut.target == "slot" || mut.target == "chunk")
 			sub.Label("mut " + mut.class)
 			sub.Label("target " + mut.target)
+			sub.LabelIf(mut.identical, "mut chunk change invisible to a plain zstd decoder")
 			desc := mut
 			sub.Sample(func() any { return fmt.Sprintf("%s — %s ⇒ %v", desc.class, desc.desc, err) })
 			col.Commit(sub)
